@@ -80,6 +80,13 @@ func NewSolver(kind string, timeoutMs int) (*Solver, error) {
 	return s, nil
 }
 
+func solverKindName(kind string) string {
+	if kind == "" {
+		return "z3"
+	}
+	return kind
+}
+
 func (s *Solver) Close() {
 	if s.cmd != nil {
 		s.in.Close()
